@@ -283,6 +283,54 @@ func init() {
 				}
 			}
 			r.FieldUnderLock("C15.store", sp, "BaseAsyncState", "messages", "messagesMutex", nil)
+			// nothing admitted is ever dropped: the history only grows (append of the
+			// received message to the list of its type; no eviction, no reslicing) and
+			// the machine's receive handler hands every message over with a blocking send
+			r.Rule("C15.no-drop", "history append-only; receive handler blocks instead of dropping", 2)
+			if h := r.MustFn("C15.no-drop", sp, "BaseAsyncState.ReceiveToHistory"); h != nil {
+				nUpd := 0
+				okApp := true
+				EachInstr(h, func(in ssa.Instruction) {
+					switch x := in.(type) {
+					case *ssa.MapUpdate:
+						nUpd++
+						ap := isAppend(x.Value)
+						if ap == nil || Desc(x.Map) != "P0.messages" {
+							okApp = false
+							return
+						}
+						lk, isLk := ap.Call.Args[0].(*ssa.Lookup)
+						e := appendedElem(ap)
+						if !isLk || Desc(lk.X) != "P0.messages" || Desc(lk.Index) != Desc(x.Key) || e == nil || Desc(e) != "P1" {
+							okApp = false
+						}
+					case *ssa.Slice:
+						if strings.Contains(Desc(x.X), "P0.messages") {
+							okApp = false
+						}
+					case *ssa.Call:
+						if b, ok := x.Call.Value.(*ssa.Builtin); ok && b.Name() == "delete" {
+							okApp = false
+						}
+					}
+				})
+				r.Cond(nUpd == 1 && okApp, "C15.no-drop", FnName(h)+"#append-only", h.Pos(), "messages[type] = append(messages[type], msg) and nothing else")
+			}
+			if ex := r.W.Fn(sp, "AsyncMachine.Execute"); ex != nil {
+				n := 0
+				for _, cl := range ex.AnonFuncs {
+					sends := chanSends(cl)
+					if len(sends) == 0 {
+						continue
+					}
+					n++
+					_, isSend := sends[0].In.(*ssa.Send)
+					r.Cond(len(sends) == 1 && isSend && len(Facts(sends[0].In.Block())) == 0 && Desc(sends[0].Val) == "P0", "C15.no-drop", FnName(cl)+"#blocking-send", cl.Pos(), "the receive handler forwards every message with an unconditional blocking send (a select/default would drop messages the network layer never re-delivers)")
+				}
+				if n != 1 {
+					r.Undecided("C15.no-drop", FnName(ex)+"#handler", "receive handler not found")
+				}
+			}
 		},
 	})
 	witness(Witness{Prop: "C15", Name: "close-without-can-transition", File: "pkg/protocol/state/async_machine.go",
